@@ -27,11 +27,13 @@ TGT = {"matrix": 0, "weights": 1, "both": 2}
 
 def gen_case(rng, name):
     cfg = T.config(rng, name)
-    n, m = gen.shape(rng, 8, 5, 2, 1, force_nonsquare=1.0, big=0.0)
-    mode = rng.choice(["dyadic", "int", "float"])
+    n, m = gen.shape(rng, 8, 5, 2, 1, force_nonsquare=1.0, big=0.0, huge=0.05)
+    mode = rng.choice(["dyadic", "int", "float"] if n < 60 else ["dyadic", "int"])
+    if n >= 60 and name in ("VectorScaler", "StandarScaler"):
+        n, mode = 65, "int"       # (their exact sums of squares grow quickly in the model's unreduced rationals)
     positive = name in ("SumScaler", "VectorScaler", "MaxAbsScaler", "MaxScaler") and rng.random() < 0.7
     mtx = gen.values(rng, n, m, mode, positive=positive)
-    w = gen.weights(rng, m, rng.choice(["dyadic", "int", "float"]))
+    w = gen.weights(rng, m, rng.choice(["dyadic", "int", "float"] if n < 60 else ["dyadic", "int"]))
     if name == "PushNegatives":
         for j in range(m):
             if rng.random() < 0.5:
@@ -51,15 +53,13 @@ def gen_case(rng, name):
             w[rng.randrange(m)] = 0.0
     # non-degenerate: no constant column, non-zero sums
     for j in range(m):
-        if len({r[j] for r in mtx}) == 1:
-            mtx[0][j] += 1.0
-        if sum(r[j] for r in mtx) == 0:
+        while len({r[j] for r in mtx}) == 1 or sum(r[j] for r in mtx) == 0:
             mtx[0][j] += 1.0
     if len(set(w)) == 1 and m > 1:
         w[0] += 1.0
     if sum(w) == 0:
         w[0] += 1.0
-    if name not in ("PushNegatives", "AddValueToZero") and rng.random() < 0.2:
+    if name not in ("PushNegatives", "AddValueToZero") and rng.random() < 0.2 and n < 60:
         # another unit of measurement: one criterion (or all) on a tiny scale; a power of two, so exact data stay exact
         cols = range(m) if rng.random() < 0.4 else [rng.randrange(m)]
         k = rng.choice([2.0 ** -30, 2.0 ** -40, 2.0 ** -27])
@@ -67,9 +67,17 @@ def gen_case(rng, name):
             for i in range(n):
                 mtx[i][j] *= k
         mode = mode + "+tiny_unit"
-    return {"matrix": mtx, "weights": w, "objectives": gen.objectives(rng, m),
-            "alternatives": gen.labels(rng, n, gen.LABEL_POOL_A, "A"),
-            "criteria": gen.labels(rng, m, gen.LABEL_POOL_C, "C"), "tf": cfg, "mode": mode}
+    c = {"matrix": mtx, "weights": w, "objectives": gen.objectives(rng, m),
+         "alternatives": gen.labels(rng, n, gen.LABEL_POOL_A, "A"),
+         "criteria": gen.labels(rng, m, gen.LABEL_POOL_C, "C"), "tf": cfg, "mode": mode}
+    if "tiny_unit" not in mode and rng.random() < 0.1:
+        # criteria stored in narrow / unsigned integer or single-precision types
+        gen.narrow_dtypes(rng, c, positive=positive, pairs=False, floats=False)   # (single precision: another rounding unit)
+        c["mode"] = mode + "+narrow_dtypes"
+        for j in range(m):
+            while len({r[j] for r in mtx}) == 1 or sum(r[j] for r in mtx) == 0:
+                mtx[0][j] += 1.0
+    return c
 
 
 def F(x):
@@ -93,6 +101,8 @@ def expected_vector(name, params, v, cores):
 
 def normal_form(name, params, vin, vout, obj=None):
     """Documented normal form on one vector (a criterion, or the weight vector)."""
+    if any(x != x or abs(x) == float("inf") for x in vout):
+        return f"non-finite output {vout[:6]}"
     o = [CL.D(x) for x in vout]
     i = [CL.D(x) for x in vin]
     tol = CL.D("1e-9")
@@ -111,7 +121,8 @@ def normal_form(name, params, vin, vout, obj=None):
             return f"min/max mapped to {o[k[0]]},{o[k[1]]} instead of {lo},{hi}"
     if name == "StandarScaler":
         mu = sum(o) / len(o)
-        if params["with_mean"] and abs(mu) > tol:
+        # rounding of the mean is relative to the size of the values (without scaling the output keeps that size)
+        if params["with_mean"] and abs(mu) > tol * max(1, max(abs(x) for x in o)):
             return f"mean {mu}"
         if params["with_std"]:
             var = sum((x - mu) ** 2 for x in o) / len(o)
